@@ -32,6 +32,9 @@ CHECKS = {
  'C06': dict(cat='exploration', engine='E2', tech='bounded-exhaustive product enumeration of isotherm variants through export/import/re-export, exact comparison',
    text='The Cartesian product of class (metadata-only, point, model) x 12 unit configurations x 100 data shapes (1-7 points, 5 branch patterns incl. user-assigned marks, 6 extra-column sets incl. missing values) x a 19-value metadata alphabet (unicode, texts spelling numbers/booleans/None, ints, floats, bools, null, lists, nested dicts, material with properties) x target (string, file) x all 16 models (DR/DA also fitted) is exported to JSON, imported and re-exported; to_dict() incl. Python types, every data column and branch mark, model fields and predictions on a grid, identifier/== and byte-identity of the re-export are compared exactly. Quick thins the product over non-default unit configurations; thorough enumerates it completely.',
    note='Metadata keys are non-reserved; bitwise equality of doubles demanded.', ref='§4 C06'),
+ 'C07': dict(cat='exploration', engine='E2', tech='bounded-exhaustive product enumeration through CSV/Excel/AIF export and import, field-by-field comparison; refusal alphabet for out-of-domain values',
+   text='format (csv, xls, aif) x class x 12 unit configurations x data shapes (1-7 points, 5 branch patterns incl. user-assigned marks, extra numeric/text columns, missing values) x the per-format in-domain metadata alphabet x target (string, file) x all 16 models (DR/DA fitted, small-magnitude parameters) x material with properties x points generated from a model; compared field by field (material+properties, adsorbate, temperature, unit labels, data at 8 decimals, branch marks and order, model name/parameters/ranges/rmse/predictions) and with ==. A per-format out-of-domain alphabet (separator, newline, quote, texts spelling numbers/booleans/none/lists, empty text, lists, nested dicts, keys with blanks) must be refused with a pyGAPS error or come back unchanged.',
+   note='Value domains as the property defines them; 5 == 5.0 counts as the same value, booleans and texts must keep their kind.', ref='§4 C07'),
 }
 
 def main():
